@@ -128,7 +128,7 @@ def setExpiry (c : Ctx) (s : State) (k : Bytes) (exp : Option Int) : Option Stat
 /-- Flush :80 on one database: the store map is cleared, the volatile slice is `clear`ed in place
     (cells zeroed, length kept). Dereferencing the per-database cache of an absent database panics. -/
 def flushDb (s : State) (db : Nat) : Option State :=
-  if !s.hasDb db then none else
+  if !s.hasDb db then some s else
   let d := s.db db
   some { s with dbs := s.dbs.put db ⟨[], d.vol.map fun _ => []⟩ }
 
